@@ -304,7 +304,47 @@ def b_range(eng, node, st):
 
 
 def b_zip(eng, node, st):
-    return VZip(_args(eng, node, st))
+    parts = []
+    for a in node.args:
+        if isinstance(a, ast.Starred):
+            v = eng.eval(a.value, st)
+            r = eng.model_hook(v, "star", st)          # zip(*obj): the iterables obj yields (declared by the object's model)
+            if r is NotImplemented:
+                if isinstance(v, VTuple):
+                    r = list(v.items)
+                else:
+                    raise Unsupported("zip(*%r)" % (v,))
+            parts += list(r)
+        else:
+            parts.append(eng.eval(a, st))
+    return VZip(parts)
+
+
+def b_frozenset(eng, node, st):
+    a = _args(eng, node, st)
+    if not a:
+        return ("emptyset",)
+    v = a[0]
+    if isinstance(v, VTuple):
+        return v           # a literal collection: only membership and iteration are used on it
+    return b_set(eng, node, st)
+
+
+def sorted_set(eng, st, v):
+    """sorted(set of ints): the strictly increasing list of exactly the set's elements"""
+    if v.key.z3sort() != z3.IntSort():
+        raise Unsupported("sorted() of a set of non-integers")
+    n = z3.Int(fresh_name("sortedlen"))
+    arr = z3.Array(fresh_name("sortedarr"), z3.IntSort(), z3.IntSort())
+    idx = z3.Function(fresh_name("sortedidx"), z3.IntSort(), z3.IntSort())
+    i, j, k = z3.Ints("%s %s %s" % (fresh_name("i"), fresh_name("j"), fresh_name("k")))
+    st.assume(n >= 0)
+    st.assume(z3.ForAll([i], z3.Implies(z3.And(i >= 0, i < n), z3.And(v.dom[arr[i]], idx(arr[i]) == i)), patterns=[arr[i]]))
+    st.assume(z3.ForAll([i, j], z3.Implies(z3.And(i >= 0, i < j, j < n), arr[i] < arr[j]), patterns=[z3.MultiPattern(arr[i], arr[j])]))
+    st.assume(forall_pat([k], z3.Implies(v.dom[k], z3.And(idx(k) >= 0, idx(k) < n, arr[idx(k)] == k)), [idx(k), v.dom[k]]))
+    r = VList(INT, arr, n)
+    r.sorted_index = idx
+    return r
 
 
 def b_enumerate(eng, node, st):
@@ -553,6 +593,8 @@ def b_sorted(eng, node, st):
         raise Unsupported("sorted() of a tuple of arity %d" % len(zs))
     if isinstance(v, VList):
         return sorted_list(eng, st, v)
+    if isinstance(v, VSet):
+        return sorted_set(eng, st, v)
     raise Unsupported("sorted of %r" % (v,))
 
 
@@ -620,7 +662,7 @@ def b_isinstance(eng, node, st):
 BUILTINS = {
     "len": b_len, "range": b_range, "zip": b_zip, "enumerate": b_enumerate, "sum": b_sum, "all": b_all, "any": b_any,
     "max": b_max, "min": b_min, "abs": b_abs, "int": b_int, "bool": b_bool, "list": b_list, "tuple": b_tuple,
-    "set": b_set, "sorted": b_sorted, "print": b_print, "isinstance": b_isinstance,
+    "set": b_set, "frozenset": b_frozenset, "sorted": b_sorted, "print": b_print, "isinstance": b_isinstance,
 }
 
 
